@@ -21,6 +21,18 @@ CHECKS = {
         "Trusted: numpy matmul/kron; the reference model in mc/ref.py (legal_moves, scan, wiring). "
         "Nothing is claimed beyond the completed depth/width bounds reported in the evidence.",
         "DESIGN.md 4/C05"),
+    "C06": (
+        "explicit-state exploration: interchanger classes enumerated by BFS in a reference move graph, "
+        "normalize()/normal_form()/foliation() of the real code driven step by step on every member",
+        "The bounded universe is partitioned into interchanger-equivalence classes with the reference "
+        "model; for every member of every class and both left flags the normalize() generator is pulled "
+        "step by step and each yielded diagram must be an edge of the reference move graph; normal_form "
+        "must equal the last step, be idempotent, be unique per class when the box graph is connected, "
+        "and raise NotImplementedError exactly when the driven trace revisits a state (only for "
+        "disconnected box graphs). Foliation steps and flatten() must stay inside the class.",
+        "Trusted: reference model (mc/ref.py legal_moves). Classes with more than class_cap members "
+        "(disconnected scalars) are only checked for soundness up to the cap. Bounds in evidence.",
+        "DESIGN.md 4/C06"),
 }
 
 PENDING_REASON = ("check not built yet in this session (planned: bounded exhaustive exploration as in "
